@@ -51,6 +51,6 @@ Distribute(recs, crcs, D) ==
   IN  [f \in names |-> Asc(n, {i \in 1..n : file(i) = f}, 1)]
 
 ---------------------------------------------------------------------------
-(* obimultiplex -u: a read is identified iff its class (OptData!MuxReads) is "good" *)
+(* obimultiplex -u: a read is identified iff its class (OptData!MuxSets) is "good" *)
 Identified(class) == class = "good"
 =============================================================================
